@@ -1,6 +1,7 @@
 import PlumpyModel.Persist.Resume
 import PlumpyModel.Outline.Proof
 import PlumpyModel.Persist.Proof6
+import PlumpyModel.Persist.PlainView
 /-!
 # C08 — resuming from any checkpoint reproduces the uninterrupted execution
 
@@ -23,7 +24,8 @@ step boundaries — checkpoint, abandon, restore, any number of times in a row (
 `C08_plain_resume_equiv`: for every program without `waitOn`, every such history and every placement of cuts at step
 boundaries, the call traces of the abandoned instances up to their checkpoints followed by the trace of the last instance
 are the trace of the uninterrupted history (`CEv.ref`: the same events without cuts), and the state objects agree;
-`C08_plain_same_outcome`, `C08_plain_no_reexecution_no_skip`, `C08_plain_same_point`, `C08_plain_restore_at_boundary`.
+`C08_plain_same_outcome`, `C08_plain_no_reexecution_no_skip`, `C08_plain_same_point`, `C08_plain_restore_at_boundary`;
+`C08_plain_bundle_roundtrip` links `saveCfg` / `restoreCfg` to `Persist.save` / `Persist.load` of C07.
 Hypothesis besides admissibility of the cuts: no callback of the uninterrupted run exhausts the model's fuel (`fuelOk`, as
 in C05 / C06).  Not covered by the theorem: pause / play / kill requests in the history (C05 / C04 treat them without
 crashes), work-chain steps that await futures (a WAITING state holding live awaitables cannot be saved, C07).  The tie to
@@ -224,6 +226,23 @@ process-control model), so a second checkpoint taken before the restored instanc
 theorem C08_plain_save_restore_save (c : Cfg) : saveCfg (restoreCfg (saveCfg c)) = saveCfg c := by
   cases hst : c.st <;> cases hp : c.paused <;> simp [saveCfg, restoreCfg, saveSt, restoreSt, hst, hp]
 
+/-- **what `restoreCfg` builds an instance from is what the persistence model's bundle keeps** (the link to C07): write the
+process-control bundle `saveCfg c` of a plain process into a persisted view (`viewOf`: function / callback by name, `args`,
+`kwargs`, result, exception through a coding `K` that is injective on what occurs; every other member from any savable view
+`base`), save it with `Persist.save`, send it through a medium, load it with `Persist.load` — with the loader of the save
+context or none: the view comes back, its process-control part read off by `savedOf` is `saveCfg c`, and the instance built
+from it is `restoreCfg (saveCfg c)`.  `Persist.save` / `load` iterate the member sets and keys generated from the source, so
+a member dropped from `_auto_persist` breaks this theorem through `load_save`. -/
+theorem C08_plain_bundle_roundtrip (K : Codec) (E : Persist.Env) (ctx ctx' : Option Persist.Loader) (C : Persist.Cls)
+    (hC : C.outline = none) (base : Persist.View) (hE : E.ok ctx) (hbase : Persist.savable C base = true)
+    (hc : ctx' = none ∨ ctx' = ctx) (c : Cfg) (hctx : c.ctx = []) (hcov : K.covers (saveCfg c)) :
+    ∃ v', Persist.load E C ctx' (Persist.Medium.pickle (Persist.save E C ctx (viewOf K base (saveCfg c)))) = .ok v' ∧
+      savedOf K v' = some (saveCfg c) ∧ (savedOf K v').map restoreCfg = some (restoreCfg (saveCfg c)) := by
+  refine ⟨viewOf K base (saveCfg c),
+    Persist.load_save E ctx C _ hE (savable_viewOf K C hC base hbase (saveCfg c)) ctx' hc, ?_, ?_⟩
+  · exact savedOf_viewOf K base (saveCfg c) hctx hcov
+  · rw [savedOf_viewOf K base (saveCfg c) hctx hcov]; rfl
+
 /-! ### non-vacuity -/
 section
 /-- `f0` continues with arguments, `f1` awaits once and waits for a wake-up, `f2(v)` continues, `f3` stops -/
@@ -246,6 +265,24 @@ example : fuelOk plainDemo (init 0) (plainHist.map CEv.ref) = true := by decide 
 example : (crun plainDemo cinit plainHist).restores = 6 ∧ (crun plainDemo cinit plainHist).cur.st = .finished (some 9) true ∧
     ((crun plainDemo cinit plainHist).trace.map fun a => (a.fn, a.args)) = [(3, [7]), (2, [7]), (1, [4, 5]), (0, [])] ∧
     ((crun plainDemo cinit plainHist).cur.trace.map fun a => a.fn) = [3] := by decide +kernel
+-- the bundle round trip: the process suspended in `f1(4, 5, k1=6)`, values interned by a table, default loader
+private def demoK : Codec :=
+  tableCodec [.args [], .kw [], .args [4, 5], .kw [(1, 6)], .res (some 9)] ["f0", "f1", "f2", "f3"]
+private def demoEnv : Persist.Env := { glob := Persist.defaultLoader, find := fun _ => none, fnName := fun f => s!"s{f}" }
+private def demoBase : Persist.View :=
+  { Persist.blankView (.killed .none .none) with
+    pid := .nat 7
+    inputsParsed := some (.opaque "fd{a:i1}")
+    outputs := [("t0", .opaque "[[],[]]")] }
+example : (saveCfg (run plainDemo (init 0) [.tick])).st = .running 1 [4, 5] [(1, 6)] := by decide +kernel
+example : demoK.covers (saveCfg (run plainDemo (init 0) [.tick])) := by
+  refine ⟨?_, trivial⟩
+  show (1 < 4 ∧ ["f0", "f1", "f2", "f3"].idxOf "f1" = 1) ∧
+    Payload.args [4, 5] ∈ [Payload.args [], .kw [], .args [4, 5], .kw [(1, 6)], .res (some 9)] ∧
+    Payload.kw [(1, 6)] ∈ [Payload.args [], .kw [], .args [4, 5], .kw [(1, 6)], .res (some 9)]
+  decide
+example : demoEnv.ok none := ⟨fun _ => rfl, fun _ h => by cases h⟩
+example : Persist.savable { name := "GenP", outline := none } demoBase = true := by decide
 -- a cut inside a step that is in flight is not admissible
 example : cadm plainDemo cinit [.tick [3]] = false := by decide +kernel
 end
